@@ -68,7 +68,8 @@ theorem header_offsets :
     Whv.Gen.C04.ralHeader = [("version", 0, 1), ("guardianSetIndex", 1, 4), ("signersLen", 5, 1)] ∧
     Whv.Gen.C04.solSig = [("guardianIndex", 0, 1), ("r", 1, 32), ("s", 33, 32), ("v", 65, 1)] ∧
     Whv.Gen.C04.ralSig = [("guardianIndex", 0, 1), ("signature", 1, 65)] ∧
-    Whv.Gen.C04.ralSigStart = 6 ∧ Whv.Gen.C04.ralSigStride = 66 ∧ Whv.Gen.C04.ralBodyStart = (6, 66) := by decide
+    Whv.Gen.C04.ralSigStart = 6 ∧ Whv.Gen.C04.ralSigStride = 66 ∧ Whv.Gen.C04.ralBodyStart = (6, 66) ∧
+    Whv.Gen.C04.ralBodyStartCount = "signatureSize" := by decide
 
 /-- All three implementations hash the body twice (and Solidity checks the version byte). -/
 theorem double_hash_everywhere :
@@ -79,7 +80,7 @@ theorem double_hash_everywhere :
 Go signing body, whatever the header says. -/
 theorem wire_body (v : Vaa) (hs : ∀ s ∈ v.sigs, s.WF) :
     (marshal v).drop (Whv.Gen.C04.ralBodyStart.1 + v.sigs.length * Whv.Gen.C04.ralBodyStart.2) = serializeBody v.body := by
-  have e : Whv.Gen.C04.ralBodyStart = (6, 66) := header_offsets.2.2.2.2.2.2
+  have e : Whv.Gen.C04.ralBodyStart = (6, 66) := header_offsets.2.2.2.2.2.2.1
   rw [e]
   unfold marshal
   rw [drop_app' (be_length _ _) (by omega), drop_app' (be_length _ _) (by omega), drop_app' (be_length _ _) (by omega),
